@@ -196,6 +196,28 @@ ADD7 = {
  "C19": "the manager's GeoIP database is replaced only if the open did not fail (err == nil or ErrMissingDB); the policy take-over in OnReload is unconditional; nothing statically reachable from the expiry pass is an unchecked type assertion, explicit panic, exit call or integer division by a variable.",
 }
 
+ADD8 = {
+ "C01": "a successful reload replaces the phantom selector as a whole (shared with C07.8); SetClientConf installs the configuration it was handed, never a merge with the previous one.",
+ "C02": "the handler offers every transport the live registration manager (no per-connection snapshot of the registrations).",
+ "C03": "the unidentified connection is never handed to a goroutine or deferred call while the handler carries on; the handler reads the peer's bytes into a buffer allocated by that call.",
+ "C04": "the obfs4 mark search starts at representative + minimum padding; WrapConnection and the helpers of its package write no map, field or package variable that outlives the call.",
+ "C05": "SCTPConn.Close closes the transport under it on every path; a deadline armed on a connection from the handshake context is cleared on that same connection before every successful return (any function of pkg/dtls).",
+ "C06": "with the allowlist enabled the blocklist is never what decides (it is read only on the enableCovertAllowlist == false side).",
+ "C07": "a delivery is tracked before its liveness probe and before it is shared; nothing is merged into the shared message's flags after the pre-scanned mark is set.",
+ "C08": "only the expiry sweep deletes entries of the registration tables (shared with C09.14).",
+ "C09": "the liveness LRU is never modified while the cache mutex may be held (its eviction callback takes it); a reload swaps in the parsed policy lists, it never re-parses into the live object (shared with C19.2).",
+ "C10": "Cleanup sends the clear on every path; updateInDetector is invoked by markActive only, for its own registration.",
+ "C11": "a length guard written as len(x) != 0 counts; no function on the externally reachable paths calls itself except the reviewed json.Marshal fallback of the registration digest, whose field types are checked to be infallible; every certificate pair stored in the DTLS listener's table has both certificates set.",
+ "C12": "the exclusion test is followed into a predicate helper of the package.",
+ "C13": "no value of a registrar type that contains a mutex is copied (value receivers, whole-struct loads).",
+ "C14": "Select tests the configuration taken from the generation table against nil (not merely for presence) before using it.",
+ "C15": "every encoding generates its own ephemeral key (no successful return without ScalarBaseMult in that call); the pointer depth is recorded for every suffix written verbatim; chunks() appends a remainder only when it is not empty.",
+ "C16": "every sctp.Config of the package sets the same maximum message size.",
+ "C17": "the SCTP library is given its own default logger factory, untouched.",
+ "C19": "optional fields of the configuration messages are not dereferenced bare on the reload path; the whole-selector replacement of C07.8 is part of C19.2.",
+ "C20": "saveClientConf reports success only after the rename (no 'unchanged' shortcut); everything SetClientConf (or a method it calls on the same object) writes before the save is written again on the failure path.",
+}
+
 ALL = ["C%02d" % i for i in range(1, 21)]
 
 def main():
@@ -210,7 +232,7 @@ def main():
                 "evidence_file": "/verif/evidence/%s.json" % pid,
                 "replay_cmd_template": "cat {path}",
                 "engine": "cjverif",
-                "level_claimed": {"category": "other", "text": ent[2] + (" Further decided (seed rounds 3-4, DESIGN 10.5): " + ADD34[pid] if pid in ADD34 else "") + (" Round 5: " + ADD5[pid] if pid in ADD5 else "") + (" Round 6: " + ADD6[pid] if pid in ADD6 else "") + (" Round 7: " + ADD7[pid] if pid in ADD7 else ""), "design_ref": "DESIGN.md section " + ent[3] + " and 10.2"},
+                "level_claimed": {"category": "other", "text": ent[2] + (" Further decided (seed rounds 3-4, DESIGN 10.5): " + ADD34[pid] if pid in ADD34 else "") + (" Round 5: " + ADD5[pid] if pid in ADD5 else "") + (" Round 6: " + ADD6[pid] if pid in ADD6 else "") + (" Round 7: " + ADD7[pid] if pid in ADD7 else "") + (" Round 8: " + ADD8[pid] if pid in ADD8 else ""), "design_ref": "DESIGN.md section " + ent[3] + " and 10.2"},
                 "level_note": NOTE,
                 "technique": "static analysis: " + ent[1],
             })
